@@ -27,15 +27,37 @@ type Model struct {
 
 type silenceRec struct {
 	SilenceModel
-	Step   int
-	Expire time.Time // zero: never expired through the API
+	Step int
+	// eras: the stored state of the silence over time. A new era starts when the silence is expired through the
+	// API and at every restart (a restart without snapshot loses it; one from the last maintenance snapshot
+	// rolls it back to what that snapshot held: an expiry after the snapshot is undone, a silence created
+	// after it is gone).
+	eras []silEra
+}
+
+type silEra struct {
+	From   time.Time
+	Exists bool
+	Expire time.Time // zero: not expired through the API
+}
+
+func (s *silenceRec) eraAt(t time.Time) silEra {
+	e := silEra{}
+	for _, x := range s.eras {
+		if x.From.After(t) {
+			break
+		}
+		e = x
+	}
+	return e
 }
 
 func (s *silenceRec) active(t time.Time) bool {
 	if t.Before(s.From) || t.Before(s.Start) || t.After(s.End) {
 		return false
 	}
-	return s.Expire.IsZero() || t.Before(s.Expire)
+	e := s.eraAt(t)
+	return e.Exists && (e.Expire.IsZero() || t.Before(e.Expire))
 }
 
 type cfgEpoch struct {
@@ -95,11 +117,14 @@ func BuildModel(sc *Scenario, tr *Trace) *Model {
 			}
 			s.End = now.Add(time.Duration(st.Silence.EndOff) * time.Second)
 			s.Matchers = [][]ref.Matcher{st.Silence.Matchers}
+			s.eras = []silEra{{From: now, Exists: true}}
 			m.Silences = append(m.Silences, s)
 			silByStep[i] = s
 		case "expire":
-			if s := silByStep[st.SilRef]; s != nil && s.Expire.IsZero() && !now.After(s.End) {
-				s.Expire = now
+			if s := silByStep[st.SilRef]; s != nil && !now.After(s.End) {
+				if e := s.eraAt(now); e.Exists && e.Expire.IsZero() {
+					s.eras = append(s.eras, silEra{From: now, Exists: true, Expire: now})
+				}
 			}
 		case "behave":
 			k := fmt.Sprintf("%s/%d", st.Behave.Receiver, st.Behave.Idx)
@@ -112,6 +137,20 @@ func BuildModel(sc *Scenario, tr *Trace) *Model {
 			m.Reloads = append(m.Reloads, now)
 		case "restart":
 			m.Restarts = append(m.Restarts, restartRec{At: now, Kind: st.Restart})
+			if st.Restart != "clean" {
+				var snapAt time.Time // zero: started without a snapshot
+				if st.Restart == "stale" && len(m.Restarts)-1 < len(tr.RestartSilSnap) {
+					snapAt = tr.RestartSilSnap[len(m.Restarts)-1]
+				}
+				for _, s := range m.Silences {
+					if snapAt.IsZero() || s.From.After(snapAt) {
+						s.eras = append(s.eras, silEra{From: now})
+						continue
+					}
+					e := s.eraAt(snapAt)
+					s.eras = append(s.eras, silEra{From: now, Exists: e.Exists, Expire: e.Expire})
+				}
+			}
 			// the provider is memory only: everything is gone; GC phase restarts
 			for key := range m.Alerts.Versions {
 				if m.Alerts.cur(key) != nil {
@@ -144,7 +183,10 @@ func BuildModel(sc *Scenario, tr *Trace) *Model {
 		add(s.From)
 		add(s.Start)
 		add(s.End)
-		add(s.Expire)
+		for _, e := range s.eras {
+			add(e.From)
+			add(e.Expire)
+		}
 	}
 	hasIntervals := false
 	for _, c := range m.cfgs {
